@@ -809,6 +809,10 @@ class SSeq(Sym):
                 if not ctx().branch(T.is_cons(t), 'index-in-range'):
                     raise IndexError('index out of range')
                 return T.lower(T.hd(t))
+            if i == -1:
+                last = _syntactic_last(z3.simplify(self.t))
+                if last is not None:        # x = app(prefix, [v]) or an explicit spine: no case split needed
+                    return T.lower(last)
             n = T.length(self.t)
             if not ctx().branch(n >= -i, 'index-in-range'):
                 raise IndexError('index out of range')
@@ -886,6 +890,21 @@ class SSeq(Sym):
 
     def count(self, x):
         raise OutOfSubset('list.count on symbolic list')
+
+
+def _syntactic_last(t):
+    """last element of a VL term whose tail end is explicit (app(_, cons(v, nil)) / cons(.., cons(v, nil)))"""
+    while z3.is_app(t):
+        k = t.decl().name()
+        if k == 'app':
+            t = t.arg(1)
+        elif k == 'cons':
+            if z3.is_app(t.arg(1)) and t.arg(1).decl().name() == 'nil':
+                return t.arg(0)
+            t = t.arg(1)
+        else:
+            return None
+    return None
 
 
 class HRef:
